@@ -445,6 +445,89 @@ func gen(tier string, rng *h.Rng, emit func(string)) {
 		emit(fmt.Sprintf("g1strm %s %s", k, h.Hex(tail)))
 		emit(fmt.Sprintf("g2strm %s %s", k, h.Hex(tail)))
 	}
+
+	// ---- 7. representatives: one element built along two different routes (no normalisation in between) ----
+	for i := 0; i < pick(36, 300); i++ {
+		a, b, c := rng.Big(r), rng.Big(r), rng.Big(r)
+		if i%9 == 0 { // small scalars: short chains, z values that are small multiples
+			a, b, c = big.NewInt(int64(1+rng.Intn(6))), big.NewInt(int64(1+rng.Intn(6))), big.NewInt(int64(1+rng.Intn(6)))
+		}
+		sum := new(big.Int).Add(a, b)
+		sum.Mod(sum, r)
+		prod := new(big.Int).Mul(a, b)
+		prod.Mod(prod, r)
+		na := new(big.Int).Sub(r, a)
+		var e1, e2 string
+		switch i % 12 {
+		case 0:
+			e1, e2 = fmt.Sprintf("k%s,k%s,+", a, b), fmt.Sprintf("k%s", sum)
+		case 1:
+			e1, e2 = fmt.Sprintf("k%s,d,k%s,+", a, c), fmt.Sprintf("k%s,k%s,+,k%s,+", c, a, a)
+		case 2:
+			e1, e2 = fmt.Sprintf("k%s,m%s", a, b), fmt.Sprintf("k%s", prod)
+		case 3:
+			e1, e2 = fmt.Sprintf("k%s,k%s,-,n", a, b), fmt.Sprintf("k%s,k%s,-", b, a)
+		case 4: // a DECODED object (Clone = decode(encode)) against a Jacobian representative
+			e1, e2 = fmt.Sprintf("k%s,k%s,+,c", a, b), fmt.Sprintf("k%s,k%s,+", b, a)
+		case 5:
+			e1, e2 = fmt.Sprintf("k%s,k%s,+,k%s,-", a, b, b), fmt.Sprintf("k%s", a)
+		case 6: // both the identity: z = 0 reached by P + (−P), by r·P and by Null()
+			e1, e2 = fmt.Sprintf("k%s,k%s,+", a, na), []string{"o", fmt.Sprintf("k%s,m%s", b, r), fmt.Sprintf("k%s,s,n,k%s,+", b, b)}[rng.Intn(3)]
+		case 7:
+			e1, e2 = fmt.Sprintf("k%s,c,d,c,k%s,+", a, c), fmt.Sprintf("k%s,k%s,k%s,+,+", a, c, a)
+		case 8:
+			e1, e2 = "b,d,d,b,+", "k5"
+		case 9:
+			e1, e2 = fmt.Sprintf("k%s,s,m%s,k%s,+", a, b, c), fmt.Sprintf("k%s,k%s,+", c, prod)
+		case 10: // long chain, never normalised
+			e1, e2 = fmt.Sprintf("k%s,d,d,k%s,+,d,k%s,-,n", a, b, c), fmt.Sprintf("k%s,k%s,m8,-,k%s,m2,-", c, a, b)
+		default:
+			e1, e2 = fmt.Sprintf("k%s,n,n", a), fmt.Sprintf("k%s,k%s,+,k%s,n,+", a, c, c)
+		}
+		if rng.Intn(3) == 0 { // DIFFERENT elements: off by one generator
+			e2 += ",b,+"
+		}
+		emit("g1rep " + e1 + " " + e2)
+		emit("g2rep " + e1 + " " + e2)
+	}
+	for i := 0; i < pick(16, 120); i++ {
+		a, b, c := rng.Big(r), rng.Big(r), rng.Big(r)
+		ac := new(big.Int).Add(a, c)
+		ac.Mod(ac, r)
+		ab := new(big.Int).Mul(a, b)
+		ab.Mod(ab, r)
+		bc := new(big.Int).Mul(b, c)
+		bc.Mod(bc, r)
+		var e1, e2 string
+		switch i % 6 {
+		case 0:
+			e1, e2 = fmt.Sprintf("p%s:%s", a, b), fmt.Sprintf("k%s", ab)
+		case 1:
+			e1, e2 = fmt.Sprintf("p%s:%s,p%s:%s,+", a, b, c, b), fmt.Sprintf("p%s:%s", ac, b)
+		case 2:
+			e1, e2 = fmt.Sprintf("p%s:%s,n", a, b), fmt.Sprintf("p%s:%s", new(big.Int).Sub(r, a), b)
+		case 3:
+			e1, e2 = fmt.Sprintf("p%s:%s,m%s", a, b, c), fmt.Sprintf("p%s:%s", a, bc)
+		case 4:
+			e1, e2 = fmt.Sprintf("p%s:%s,c,p%s:%s,-", a, b, a, b), "o"
+		default:
+			e1, e2 = fmt.Sprintf("p%s:%s,p%s:%s,-", ac, b, c, b), fmt.Sprintf("p%s:%s,c", b, a)
+		}
+		if rng.Intn(3) == 0 {
+			e2 += ",b,+"
+		}
+		emit("gtrep " + e1 + " " + e2)
+	}
+
+	// ---- 8. ONE shared object used by several goroutines at once (MarshalBinary / Equal / Pair) -------------
+	for i := 0; i < pick(3, 12); i++ {
+		a, b := rng.Big(r), rng.Big(r)
+		n := []int{4, 8, 16}[rng.Intn(3)]
+		rounds := pick(12, 40)
+		emit(fmt.Sprintf("par g2 k%s,k%s,+ %d %d", a, b, n, rounds))
+		emit(fmt.Sprintf("par g1 k%s,d,k%s,- %d %d", a, b, n, rounds))
+		emit(fmt.Sprintf("par gt p%s:%s,p%s:%s,+ %d %d", a, b, b, a, n, pick(4, 12)))
+	}
 }
 
 func min(a, b int) int {
